@@ -34,10 +34,37 @@ def case_to_coq(c):
     return "Case %s\n   %s\n   %s" % (names, pool, toks)
 
 
+def sis_to_coq(xs):
+    return coq_list(["SIdent %d %s" % (x["name"], coq_list([str(d) for d in (x["dcs"] or [])])) for x in (xs or [])])
+
+
+def nis_to_coq(xs):
+    return coq_list(["NIdent %d %d" % (x["name"], x["dc"]) for x in (xs or [])])
+
+
+def ids(xs):
+    return coq_list([str(i) for i in (xs or [])])
+
+
+def rcase_to_coq(c):
+    names = coq_list([coq_str(bytes.fromhex(h)) for h in c["names_hex"]])
+    pols = coq_list(["(%d, WPolicy (%s) %s)" % (p["id"], entry_to_coq(p), ids(p["dcs"])) for p in c["pols"]])
+    roles = coq_list(["(%d, WRole %s %s %s)" % (r["id"], ids(r["pols"]), sis_to_coq(r["sis"]), nis_to_coq(r["nis"])) for r in c["roles"]])
+    ssvc = coq_list(["(%d, %s)" % (s["name"], entry_to_coq(s)) for s in (c["synth"] or []) if s["kind"] == "svc"])
+    snode = coq_list(["(%d, %s)" % (s["name"], entry_to_coq(s)) for s in (c["synth"] or []) if s["kind"] == "node"])
+    toks = coq_list(["WToken %s %s %s %s" % (ids(t["pols"]), ids(t["roles"]), sis_to_coq(t["sis"]), nis_to_coq(t["nis"])) for t in c["toks"]])
+    steps = coq_list(["RStep %d %s" % (s["tok"], "None" if s["err"] else '(Some "%s"%%string)' % s["expect"]) for s in c["steps"]])
+    return "ResolverCase (RCase %s\n   (World %d %s\n    %s\n    %s\n    %s)\n   %s\n   %s)" % (names, c["dc"], pols, roles, ssvc, snode, toks, steps)
+
+
+def any_to_coq(c):
+    return rcase_to_coq(c) if c.get("resolver") else "PlainCase (%s)" % case_to_coq(c)
+
+
 def shard_text(cases):
-    body = ";\n  ".join(case_to_coq(c) for c in cases)
-    return ("From Verif Require Import Base.Prelude ACL.Model Run.C08.\nLocal Open Scope N_scope.\n"
-            "Definition cases : list case := [\n  %s\n].\n"
+    body = ";\n  ".join(any_to_coq(c) for c in cases)
+    return ("From Verif Require Import Base.Prelude ACL.Model ACL.Identity Run.C08.\nLocal Open Scope N_scope.\n"
+            "Definition cases : list anycase := [\n  %s\n].\n"
             "Definition M := Eval vm_compute in mismatches cases.\nPrint M.\n" % body)
 
 
@@ -78,6 +105,22 @@ def slim(c):
     return {"stream": c["stream"], "names_hex": c["names_hex"], "cache": c["cache"],
             "pool": [{k: e[k] for k in ("id", "idx", "pol", "hcl") + (("raw",) if e.get("raw") else ())} for e in c["pool"]],
             "toks": [{"idx": t["idx"]} for t in c["toks"]]}
+
+
+def slim_r(c):
+    return {k: c[k] for k in ("stream", "names_hex", "dc", "pols", "roles", "toks")} | {"steps": [{"tok": s["tok"]} for s in c["steps"]]}
+
+
+def describe_r(c):
+    """the resolver case in words: roles, tokens and the order they were resolved in"""
+    svc = ["a", "ab", "abc", "b"]
+    si = lambda xs: ["%s@%s" % (svc[x["name"]], ",".join("dc%d" % d for d in (x["dcs"] or [])) or "all") for x in (xs or [])]
+    ni = lambda xs: ["node %s@dc%d" % (svc[x["name"]], x["dc"]) for x in (xs or [])]
+    return {"datacenter": "dc%d" % c["dc"],
+            "policies": {p["id"]: {"rules": p["hcl"], "datacenters": ["dc%d" % d for d in (p["dcs"] or [])]} for p in c["pols"]},
+            "roles": {r["id"]: {"policies": r["pols"], "identities": si(r["sis"]) + ni(r["nis"])} for r in c["roles"]},
+            "tokens": {t["id"]: {"policies": t["pols"], "roles": t["roles"], "identities": si(t["sis"]) + ni(t["nis"])} for t in c["toks"]},
+            "resolved_in_order": [c["toks"][s["tok"]]["id"] for s in c["steps"]]}
 
 
 def run(ctx):
@@ -122,10 +165,12 @@ def run(ctx):
                        "what": "a finite-domain helper of the Go code (takesPrecedenceOver / enforce / AccessLevelFromString / isPolicyValid / defaultIsAllow) no longer equals the model",
                        "tables": tab, "log": o[-2500:]}, found_input=False)
 
-    cases = [json.loads(l) for l in open(out)]
-    streams = collections.Counter(c["stream"] for c in cases)
+    allcases = [json.loads(l) for l in open(out)]
+    rcases = [c for c in allcases if c.get("resolver")]
+    cases = [c for c in allcases if not c.get("resolver")]
+    streams = collections.Counter(c["stream"] for c in allcases)
     tokens = sum(len(c["toks"]) for c in cases)
-    decisions = sum(len(t["expect"]) for c in cases for t in c["toks"])
+    decisions = sum(len(t["expect"]) for c in cases for t in c["toks"]) + sum(len(st["expect"]) for c in rcases for st in c["steps"])
     errors = sum(1 for c in cases for t in c["toks"] if t["err"])
     tok_sizes = collections.Counter(len(t["idx"] or []) for c in cases for t in c["toks"])
     rule_kinds = collections.Counter()
@@ -141,7 +186,7 @@ def run(ctx):
     distinct = len({(json.dumps([c["pool"][i]["hcl"] for i in (t["idx"] or [])]), t["expect"]) for c in cases for t in c["toks"]})
 
     # ---- model vs implementation, inside Coq ----
-    shards = [cases[i:i + PER_SHARD] for i in range(0, len(cases), PER_SHARD)]
+    shards = [allcases[i:i + PER_SHARD] for i in range(0, len(allcases), PER_SHARD)]
     res = vlib.coq_run_shards(PROP, [shard_text(s) for s in shards], jobs=6)
     mism = []
     for s, (okk, idx, raw) in zip(shards, res):
@@ -151,7 +196,7 @@ def run(ctx):
         mism += [s[i] for i in idx]
 
     # ---- direct oracle on the implementation ----
-    oracle_fail = [c for c in cases if c["oracle"]]
+    oracle_fail = [c for c in allcases if c["oracle"]]
     new_fail, known_hits = [], collections.Counter()
     for c in oracle_fail:
         f = vlib.match_known(PROP, signature(c))
@@ -167,6 +212,12 @@ def run(ctx):
             continue
         reported.add(k)
         sh = c.get("shrunk") or c
+        if c.get("resolver"):
+            ctx.violation({"kind": "oracle", "reason": sh["oracle"], "signature": signature(sh), "detail": sh.get("sig"),
+                           "all_failing_clauses": c.get("oracle_kinds"), "stream": c["stream"],
+                           "token_sequence": describe_r(sh), "rcase": slim_r(sh), "unshrunk_reason": c["oracle"],
+                           "replay_cmd": "build/bin/acl -replay <this file>"})
+            continue
         ctx.violation({"kind": "oracle", "reason": sh["oracle"], "signature": signature(sh), "detail": sh.get("sig"), "all_failing_clauses": c.get("oracle_kinds"),
                        "stream": c["stream"],
                        "token_sequence": [[sh["pool"][i]["hcl"] for i in (t["idx"] or [])] for t in sh["toks"]],
@@ -177,6 +228,12 @@ def run(ctx):
     unexplained = [c for c in mism if not c["oracle"]]
     if unexplained and not new_fail:
         c = unexplained[0]
+        if c.get("resolver"):
+            ctx.violation({"kind": "correspondence", "theorem": "Run.C08.rcheck (model policies_for_identity/compile/chain_decide = ACLResolver.ResolveToken)",
+                           "mismatching_cases": len(unexplained), "stream": c["stream"], "token_sequence": describe_r(c), "rcase": slim_r(c),
+                           "observed": [st["expect"] if not st["err"] else "error" for st in c["steps"]]}, found_input=False)
+            c = None
+    if unexplained and not new_fail and c is not None:
         ctx.violation({"kind": "correspondence", "theorem": "Run.C08.check (model compile/policy_decide/chain_decide = implementation)",
                        "mismatching_cases": len(unexplained), "stream": c["stream"], "case": slim(c),
                        "observed": [t["expect"] if not t["err"] else "error" for t in c["toks"]]},
@@ -188,7 +245,13 @@ def run(ctx):
         "evaluations": decisions,
         "distinct_nontrivial": distinct,
         "rule": "one evaluation = one acl.Authorizer method call on one name on the authorizer returned by ACLPolicies.Compile (or its chain with DenyAll/AllowAll), compared with the model inside Coq and with the Go reference evaluator; distinct_nontrivial = distinct (token policy texts, full decision vector) pairs",
-        "cases": len(cases),
+        "cases": len(allcases),
+        "resolver_cases": len(rcases),
+        "resolver_steps": sum(len(c["steps"]) for c in rcases),
+        "resolver_tokens_with_2plus_roles": sum(1 for c in rcases for t in c["toks"] if len(t["roles"] or []) > 1),
+        "resolver_identity_histogram": {"service_identities": sum(len(r["sis"] or []) for c in rcases for r in c["roles"]) + sum(len(t["sis"] or []) for c in rcases for t in c["toks"]),
+                                        "node_identities": sum(len(r["nis"] or []) for c in rcases for r in c["roles"]) + sum(len(t["nis"] or []) for c in rcases for t in c["toks"]),
+                                        "scoped_policies": sum(1 for c in rcases for p in c["pols"] if p["dcs"])},
         "tokens_resolved": tokens,
         "compile_errors_observed": errors,
         "streams": dict(streams),
@@ -199,7 +262,7 @@ def run(ctx):
         "names_queried": [bytes.fromhex(h).decode("latin-1") for h in cases[0]["names_hex"]] if cases else [],
         "tabulated": {"takesPrecedenceOver": len(tab["tpo"]), "enforce": len(tab["enforce"]), "AccessLevelFromString": len(tab["level"]),
                       "isPolicyValid": len(tab["valid"]), "defaultIsAllow": len(tab["dia"]), "lemmas_ok": tab_ok},
-        "traces_validated_against_impl": len(cases),
+        "traces_validated_against_impl": len(allcases),
         "model_mismatches": len(mism),
         "model_mismatches_without_oracle_failure": len(unexplained),
         "oracle_failures": len(oracle_fail),
@@ -207,7 +270,11 @@ def run(ctx):
         "oracle_failures_unknown": len(new_fail),
         "oracle_clauses": ["cache-dependence (shared vs fresh cache)", "cached-policy-mutated (deep compare with a fresh parse)",
                            "semantics (Go evaluator of the documented rule)", "order-dependence (reversed/rotated policy list)",
-                           "enforce-dispatch (acl.Enforce)", "compile-error-on-valid-policies"],
+                           "enforce-dispatch (acl.Enforce)", "compile-error-on-valid-policies",
+                           "resolver stream: history-dependence (same token alone in a fresh ACLResolver over fresh objects)",
+                           "resolver stream: backend-object-mutated (tokens/roles/policies handed out by pointer deep-equal a fresh copy)",
+                           "resolver stream: identity-semantics (documented union of own and inherited policies/identities valid in the datacenter)",
+                           "resolver stream: role-order-dependence"],
         "samples": [{"stream": c["stream"], "policies": [e["hcl"] for e in c["pool"]][:4],
                      "tokens": [t["idx"] for t in c["toks"]], "first_token_decisions": c["toks"][0]["expect"][:60]} for c in ex],
         "exhaustive": ctx.tier == "thorough",
